@@ -294,6 +294,10 @@ _WORKER = {}
 
 
 def _worker_init(modname, repo):
+    # The worker is a fork of a parent that may hold millions of objects (every case of a thorough tier): a full collection
+    # of the cyclic garbage collector would traverse them all and charge seconds of CPU time to whatever case is running.
+    import gc
+    gc.freeze()
     os.environ["VERIF_REPO"] = repo
     sys.setrecursionlimit(3000)
     signal.signal(signal.SIGPROF, _alarm)
@@ -314,9 +318,16 @@ def _worker_run(chunk):
             continue
         arm(getattr(mod, "CASE_TIMEOUT", 20.0))
         try:
-            r = mod.check_case(case)
+            try:
+                r = mod.check_case(case)
+            except CaseTimeout:
+                # A time limit that is hit once may be the process's doing (a full garbage collection, a page fault storm);
+                # a case that hangs does so every time: it is run a second time and reported only if it hits the limit again.
+                disarm()
+                arm(getattr(mod, "CASE_TIMEOUT", 20.0))
+                r = mod.check_case(case)
         except CaseTimeout:
-            r = PartialResult({"dis": [{"clause": "Timeout", "detail": "case exceeded the per-case time limit"}],
+            r = PartialResult({"dis": [{"clause": "Timeout", "detail": "case exceeded the per-case time limit (twice in a row)"}],
                                "nontrivial": True})
         except RecursionError:
             r = PartialResult({"dis": [{"clause": "HarnessRecursionError", "detail": traceback.format_exc()[-600:]}],
